@@ -153,9 +153,9 @@ func wantMethod(entry string) string {
 func enabled(entry string, k ap.ActorKind) bool {
 	switch entry {
 	case "PostInbox":
-		return k != ap.SocialOnly
+		return k.Federated()
 	case "PostOutbox":
-		return k != ap.FederatingOnly
+		return k.Social()
 	}
 	return true
 }
@@ -176,6 +176,30 @@ func forEachReqCase(fn func(c reqCase)) {
 					}
 				}
 			}
+		}
+	}
+	// pub.NewCustomActor over the application's own delegate, with neither / one / both protocols on
+	// (reduced method / header / body alphabets)
+	for _, e := range entries {
+		for _, k := range []ap.ActorKind{ap.CustomNeither, ap.CustomSocial, ap.CustomFederating, ap.CustomBoth} {
+			if e == "Handler" {
+				continue
+			}
+			for _, au := range authOutcomes {
+				for _, bl := range outcomes3 {
+					for _, m := range []string{"GET", "POST", "PUT"} {
+						for _, h := range []hdr{headerVariants[0], headerVariants[1], headerVariants[9], headerVariants[13]} {
+							for _, b := range []bodyV{bodies[0], bodies[8], bodies[len(bodies)-4], bodies[len(bodies)-3], bodies[len(bodies)-2]} {
+								fn(reqCase{entry: e, kind: k, auth: au, block: bl, method: m, hdr: h, body: b})
+							}
+						}
+					}
+				}
+			}
+		}
+	}
+	for _, e := range entries {
+		for _, k := range kinds {
 			// the irrelevant header carrying a media type of its own
 			for _, m := range []string{"GET", "POST"} {
 				for _, h := range headerVariants {
@@ -194,7 +218,7 @@ func forEachReqCase(fn func(c reqCase)) {
 func isSideEffect(op string) bool {
 	return strings.HasPrefix(op, "DB.") || strings.HasPrefix(op, "T.") || op == "Common.NewTransport" ||
 		strings.Contains(op, ".cb.") || op == "Fed.FilterForwarding" || op == "Fed.FederatingCallbacks" || op == "Social.SocialCallbacks" ||
-		op == "Common.GetOutbox" || op == "Fed.GetInbox"
+		op == "Common.GetOutbox" || op == "Fed.GetInbox" || strings.HasPrefix(op, "Delegate.")
 }
 
 // C07 — nothing happens before authentication, authorization and protocol checks.
@@ -202,7 +226,7 @@ func C07(tier string) int {
 	res := NewResult("C07", tier, "exploration")
 	var cases []reqCase
 	forEachReqCase(func(c reqCase) { cases = append(cases, c) })
-	res.Rule = fmt.Sprintf("the full product {PostInbox,PostOutbox,GetInbox,GetOutbox,handler} x {social,federating,both} x authentication {ok,denied,error,error-with-true} x block {no,yes,error} x %d methods x %d header values x %d bodies, plus (authenticated, unblocked, GET / POST) every header value again with the header that is irrelevant for the method (Accept on a POST, Content-Type on a GET) carrying the ActivityStreams type or text/html = %d requests, each on a fresh world; monitor over the seam call log; non-trivial = request classes (entry,kind,auth,block,method-ok,header-class,body-class) that reach a decision point", len(methods), len(headerVariants), len(bodyVariants()), len(cases))
+	res.Rule = fmt.Sprintf("the full product {PostInbox,PostOutbox,GetInbox,GetOutbox,handler} x {social,federating,both; plus NewCustomActor over an application-written delegate with neither / social / federating / both protocols on, over reduced method, header and body alphabets} x authentication {ok,denied,error,error-with-true} x block {no,yes,error} x %d methods x %d header values x %d bodies, plus (authenticated, unblocked, GET / POST) every header value again with the header that is irrelevant for the method (Accept on a POST, Content-Type on a GET) carrying the ActivityStreams type or text/html = %d requests, each on a fresh world; monitor over the seam call log; non-trivial = request classes (entry,kind,auth,block,method-ok,header-class,body-class) that reach a decision point", len(methods), len(headerVariants), len(bodyVariants()), len(cases))
 	res.Assumptions = []string{"header values marked 'either' (case variants, lists) are exempt from the handled/not-handled assertion but not from the monitors",
 		"a panic is C11's business and is not judged here"}
 	var mu sync.Mutex
